@@ -495,6 +495,10 @@ def exactsolve(A: LinearOperator, B: torch.Tensor,
     # M: (*BM, na, na)
     if E is None:
         Amatrix = A.fullmatrix()  # (*BA, na, na)
+        if B.ndim < Amatrix.ndim:
+            # make sure B is never read as a batch of vectors (when its shape
+            # happens to be equal to Amatrix.shape[:-1])
+            B = B.reshape(*([1] * (Amatrix.ndim - B.ndim)), *B.shape)
         x = torch.linalg.solve(Amatrix, B)  # (*BAB, na, ncols)
     elif M is None:
         Amatrix = A.fullmatrix()
